@@ -65,6 +65,9 @@ theorem wfaultWt_ok : WtOK (faultWt isWthrow (isNote "n:wfail")) where
   nobt := by
     have : ("n:nobt" == "n:wfail") = false := by decide
     simp [faultWt, isWthrow, isNote, this]
+  fmterr := by
+    have : ("n:fmterr" == "n:wfail") = false := by decide
+    simp [faultWt, isWthrow, isNote, this]
   report := fun dr n a _ => by
     have : (reportStr dr n a == "n:wfail") = false := by simpa using (reportStr_ne dr n a).1
     simp [faultWt, isWthrow, isNote, this]
@@ -80,6 +83,9 @@ theorem ffaultWt_ok : WtOK (faultWt isFthrow (isNote "n:ffail")) where
     simp [faultWt, isFthrow, isNote, this]
   nobt := by
     have : ("n:nobt" == "n:ffail") = false := by decide
+    simp [faultWt, isFthrow, isNote, this]
+  fmterr := by
+    have : ("n:fmterr" == "n:ffail") = false := by decide
     simp [faultWt, isFthrow, isNote, this]
   report := fun dr n a _ => by
     have : (reportStr dr n a == "n:ffail") = false := by simpa using (reportStr_ne dr n a).2
